@@ -233,6 +233,12 @@ func c10Run(sc c10Scenario, prefix []int, sigs []string) (*vsched.Sched, schedVe
 				stray = fab.Peer("10.0.1.200:8805")
 				strayConn = &vConn{node: "10.0.1.200", seq: 1}
 				stray.Send(c10N4+":8805", (&sReq{Kind: kRel, Seq: 50}).build(strayConn).marshal())
+			case "report72":
+				// a Session Report Response with cause "No established PFCP Association" for the first session of association 0:
+				// unusual, legal, and no reason for the agent to stop serving the peer
+				if len(seids) > 0 {
+					w.peers[0].Send(c10N4+":8805", (&sReq{Kind: kSRR, SEID: seids[0], Seq: 130, Cause: 72}).build(conns[0]).marshal())
+				}
 			case "readtimeout":
 				horizon = 40 * time.Second
 			case "peergone":
@@ -566,6 +572,9 @@ func c10Scenarios() []c10Scenario {
 		out[len(out)-1].InFlightDel = true
 		out[len(out)-1].Name += "+inflight-del"
 	}
+	// a Session Report Response with an unusual cause, then the same peer associates again / the agent stops
+	add(1, 1, false, true, "report72")
+	add(1, 1, false, false, "report72", "stop")
 	// "with any number of live associations": more than the node's completion channel buffers (100)
 	for _, n := range []int{101, 130} {
 		add(n, 0, false, false, "stop")
